@@ -69,7 +69,7 @@ def simcore(ctx):
     files.append(f2)
     ctx.exhaustive = True
     for f in files:
-        res, total = vlib.replay(ctx, "replay-simcore", f)
+        res, total = vlib.replay(ctx, "replay-simcore", f, env={"VH_CASE_LIMIT": "30"})
         mine = [r for r in res if r.get("ok") or owns(r["sig"])]
         other = [r for r in res if not r.get("ok") and not owns(r["sig"])]
         if other:
@@ -1486,7 +1486,7 @@ def c12(ctx):
     # timers and resolvers: cancel / destroy at every boundary is what the SimCore and Resolver corpora do
     f1 = ctx.path("beh_sim.ndjson")
     vlib.tlc_gen(ctx, "GenSimCore.tla", "Gen_SimCore_sim.cfg", f1, simulate=(600 if ctx.tier == "quick" else 8000, 300))
-    res, total = vlib.replay(ctx, "replay-simcore", f1)
+    res, total = vlib.replay(ctx, "replay-simcore", f1, env={"VH_CASE_LIMIT": "30"})
     for r in res:
         if not r.get("ok") and not r["sig"].startswith(("crash", "timeout", "livelock")):
             r["ok"] = True
@@ -1519,7 +1519,7 @@ def c04(ctx):
     for cfg, sim in (("Gen_SimCore_q.cfg", None), ("Gen_SimCore_sim.cfg", (800 if ctx.tier == "quick" else 10000, 300))):
         f1 = ctx.path("beh_%s.ndjson" % ("sim" if sim else "bfs"))
         vlib.tlc_gen(ctx, "GenSimCore.tla", cfg, f1, simulate=sim)
-        res, total = vlib.replay(ctx, "replay-simcore", f1)
+        res, total = vlib.replay(ctx, "replay-simcore", f1, env={"VH_CASE_LIMIT": "30"})
         for r in res:
             if not r.get("ok") and not (r["sig"].startswith(("inline", "nested", "crash", "timeout")) or "exec.ec" in r["sig"]
                                         or "exec.unexpected" in r["sig"] or r["sig"] == "end.early/wait"):
